@@ -71,6 +71,8 @@ def case_strategy(draw, tier):
         'faults': faults,
         'starts': draw(st.lists(st.sampled_from([0, 0, 0, 30, 200, 700]), min_size=5, max_size=5)),
         'ipc': draw(st.booleans()),
+        'ret': draw(st.sampled_from(['dict', 'dict', 'callable'])),      # the relay's results are deferred: a skipped frame is then a callable that yields None at send time
+        'kill_at_skip': draw(st.sampled_from([None, None, 0, 5, 40])),    # hard-kill the source this many ms after the relay skipped a frame (restart as in faults[0] or at once)
     }
 
 
@@ -88,7 +90,7 @@ def build_nodes(case):
     elif case['topo'] == 'chain':
         src['required'] = ['A'] if case['required'] else None
         nodes.append({'id': 'A', 'sources': ['S' + scen.sub_suffix(case['sub'])], 'beh': {'kind': 'xf', 'work': case['work'][1], 'skip': case['skip'], 'topics': ['main'],
-                      'img': case['img']}, 'required': ['K'] if case['required'] else None, 'start': st_[1], 'cfg': cfg})
+                      'img': case['img'], 'ret': case.get('ret', 'dict')}, 'required': ['K'] if case['required'] else None, 'start': st_[1], 'cfg': cfg})
         nodes.append(sink('K', ['A' + scen.sub_suffix(case['sub2'])]))
         edges = {'A': [('S', case['sub'])], 'K': [('A', case['sub2'])]}
     else:
@@ -166,6 +168,21 @@ def run_case(case):
                     p.world.at(p.world.now + (f['restart'] + (400 if f['how'] == 'stop' else 0)) * 1_000_000,
                                lambda: p.live_actor(nid) is None and p.spawn(nid, at_ms=0))
             p.world.at(f['t'] * 1_000_000, do)
+        if case.get('kill_at_skip') is not None and case['topo'] == 'chain' and case['skip']:
+            armed = {'done': False}
+
+            def hook(flt, where, k):
+                if where == 'skip' and flt.config.id == 'A' and not armed['done']:     # the source dies before it delivers the next frame
+                    armed['done'] = True
+
+                    def kill_src():
+                        if p.kill('S'):
+                            obs['restarts'] += 1
+                            obs['aimed'] = True
+                            p.world.at(p.world.now + (case['faults'][0]['restart'] if case['faults'] else 0) * 1_000_000,
+                                       lambda: p.live_actor('S') is None and p.spawn('S', at_ms=0))
+                    p.world.at(p.world.now + case['kill_at_skip'] * 1_000_000, kill_src)
+            p.hooks = hook
         last_fault = max([f['t'] + f['restart'] + 400 for f in case['faults']] or [0])
 
         def done():
@@ -195,7 +212,7 @@ def run_case(case):
     for (nid, inc), recs in sorted(p.calls.items()):
         if nid not in edges:
             continue
-        last = {}
+        last, last_mid = {}, None
         for rec in recs:
             if 'in' not in rec or rec['in'] is None:
                 continue
@@ -229,6 +246,12 @@ def run_case(case):
             if len(mids) > 1:
                 return bad(f'{nid}: one delivered set carries frames published under different ids {dict(mids)}: at least one of them is not what was published for that id',
                            'set-carries-other-id', classes)
+            if mids:    # "strictly increasing upstream order": the ids of successive sets, whoever published them (a restarted publisher is fast-forwarded past what this consumer already has)
+                m = next(iter(mids))
+                if last_mid is not None and m <= last_mid:
+                    return bad(f'{nid}#{inc}: received a set published under id {m} after one published under id {last_mid} ({"the same id twice" if m == last_mid else "ids going backwards"})',
+                               'id-repeated' if m == last_mid else 'id-backwards', classes)
+                last_mid = m
             for key, seqs in per_origin.items():
                 if len(seqs) > 1:
                     continue    # C01's business
@@ -239,6 +262,7 @@ def run_case(case):
                 last[key] = s
     if stale: classes.append('stale/duplicate request reached publisher')
     if obs['restarts']: classes.append('restart/reconnect')
+    if obs.get('aimed'): classes.append('publisher killed right after the relay skipped a frame')
     if hidden_published: classes.append('hidden topic published')
     classes.append('sub ' + case['sub']['form'])
     return ok(nsets >= 3 and bool(stale or obs['restarts'] or hidden_published), classes, {'sets_at_K': nsets, 'stale_requests': stale, 'restarts': obs['restarts']})
